@@ -207,7 +207,7 @@ def run_call_variants(case, *, checkers=("typeguard", "beartype"), spellings=("n
 _JZ = {}
 
 
-def run_jax_variants(case, checkers=("beartype", "typeguard"), seed=0):
+def run_jax_variants(case, checkers=("beartype", "typeguard"), seed=0, prime=None):
     """C17: the same decorated function eagerly on concrete jax arrays (two value seeds) and traced by
     jit / vmap / grad / eval_shape / jit(vmap) / vmap(grad-like)."""
     import jax
@@ -232,8 +232,15 @@ def run_jax_variants(case, checkers=("beartype", "typeguard"), seed=0):
         fn = make_fn(order, anns, retann, ck, "new", "jax", names)
         RET[0] = jnp.zeros(tuple(case["retshape"]), jnp.float32) if case["hasret"] else jnp.float32(0)
         for kind in (0, 1):
+            if kind == 0 and prime is not None and len(prime["shapes"]) == n:
+                # the immediately preceding call of the SAME function was the sibling case (same array objects for the
+                # untouched parameters): its outcome must not leak into this one
+                try:
+                    fn(*[_JZ.setdefault(tuple(s), jnp.zeros(tuple(s), jnp.float32)) for s in prime["shapes"]])
+                except Exception:
+                    pass
             v = classify(fn, vals(kind), {}, "verdict")
-            v["desc"] = f"{ck}/eager/values{kind}"
+            v["desc"] = f"{ck}/eager/values{kind}" + ("/after-sibling" if (kind == 0 and prime is not None) else "")
             variants.append(v)
         a = vals(1)
         if n == 0:
